@@ -155,7 +155,7 @@ func c18ExpandBlocks(c *Ctx) {
 			}
 		}
 	}
-	c.Floor("expand.child appended blocks", n, 3, "known for_each, unknown for_each, static block")
+	c.Floor("expand.child appended blocks", n, 2, "known for_each, unknown for_each, static block")
 	// no sort of the result
 	sorted := false
 	for _, b := range fn.Blocks {
